@@ -294,6 +294,1135 @@ theorem sdCycles_good {D : Entries} (G : C16.Good D) (ev : Str → EvalResult) {
     have ih := sdCycles_good G ev Q n (C12.hdrSD D) c' (Or.inr rfl) hv
     simp only [C03.sdCycles, write_good G hsd, e, ih, List.replicate_succ]
 
+/-! ### 5. `_eval_expressions` when every reference is dangling -/
+
+/-- every reference of every pending expression is `$w`, `w` without bracket, and `w` names no entry -/
+def AllDangling (s : SD) : Prop :=
+  ∀ e ∈ s.exprs, '$' ∈ e.2.expression ∧
+    ∀ r ∈ findRefs e.2.expression, ∃ w, r = '$' :: w ∧ '[' ∉ w ∧ lookup (.str w) s.data = none
+
+def FlatSD (s : SD) : Prop :=
+  (∀ d ∈ s.data, C05.isStrKey d.1 = true ∧ d.2.isLeaf = true) ∧ (keys s.data).Nodup ∧ (s.exprs.map (·.1)).Nodup
+
+theorem mapM_none (vars : List (Str × Val)) : ∀ (l : List Str),
+    (∀ r ∈ l, resolveRef vars (vars.length + 1) [] r = .none) →
+    l.mapM (fun r => match resolveRef vars (vars.length + 1) [] r with
+      | .unsupported => Except.error ParseErr.unsupported
+      | .none => Except.ok (r, (none : Option Val))
+      | .val v => Except.ok (r, some v)) = .ok (l.map fun r => (r, none))
+  | [], _ => rfl
+  | r :: l, h => by
+    rw [List.mapM_cons]
+    simp only [h r (by simp), mapM_none vars l (fun r' hr' => h r' (by simp [hr'])), bind, Except.bind, pure, Except.pure,
+      List.map_cons]
+
+theorem resolveAll_dangling {s : SD} (F : FlatSD s) (A : AllDangling s) :
+    resolveAll s.exprs s.data = .ok ([], (C05.pendRefs s.exprs).length) := by
+  have hall : ∀ r ∈ C05.pendRefs s.exprs,
+      resolveRef (varsEs s.exprs s.data []) ((varsEs s.exprs s.data []).length + 1) [] r = .none := by
+    intro r hr
+    obtain ⟨e, he, hre⟩ := C05.mem_pendRefs.mp hr
+    obtain ⟨w, rfl, hb, hl⟩ := (A e he).2 r hre
+    apply C05.C05_dangling _ _ _ _ hb
+    rw [C05.getVar_varsEs s.exprs w s.data [] F.1 F.2.1, hl]
+    rfl
+  unfold resolveAll
+  have := mapM_none (varsEs s.exprs s.data []) (C05.pendRefs s.exprs) hall
+  simp only [C05.pendRefs] at this
+  simp only [bind, Except.bind, pure, Except.pure]
+  have hfm : ∀ (f : Str × Option Val → Option (Str × Val)), (∀ r, f (r, none) = none) → ∀ l : List Str,
+      List.filterMap f (l.map fun r => (r, none)) = [] := by
+    intro f hf l; induction l with
+    | nil => rfl
+    | cons a l ih => simp [hf, ih]
+  split
+  · rename_i err herr
+    have h2 := herr.symm.trans this
+    cases h2
+  · rename_i rs hrs
+    have h2 := hrs.symm.trans this
+    simp only [Except.ok.injEq] at h2
+    subst h2
+    rw [hfm _ (fun r => rfl)]
+    simp only [List.length_map, List.length_nil, Nat.sub_zero, C05.pendRefs]
+
+theorem tbl_set_self {α} {i : Nat} {a : α} : ∀ {t : Tbl α}, (t.map (·.1)).Nodup → (i, a) ∈ t → Tbl.set i a t = t
+  | [], _, h => by cases h
+  | (j, b) :: t, hn, h => by
+    simp only [List.map_cons, List.nodup_cons] at hn
+    by_cases hj : j = i
+    · subst hj
+      rcases List.mem_cons.mp h with h | h
+      · cases h; simp [Tbl.set]
+      · exact absurd (List.mem_map_of_mem (f := (·.1)) h) hn.1
+    · rcases List.mem_cons.mp h with h | h
+      · cases h; exact absurd rfl hj
+      · simp only [Tbl.set, hj, if_false, tbl_set_self hn.2 h]
+
+theorem substAll_nil : ∀ (rs : List Str) (x : Str), C05.substAll (C05.rhoOf []) rs x = x
+  | [], _ => rfl
+  | r :: rs, x => by
+    simp only [C05.substAll, List.foldl_cons, C05.rhoOf, List.find?_nil]
+    exact substAll_nil rs x
+
+theorem plainOf_nil (T : Str) : C05.plainOf [] T = none := by
+  unfold C05.plainOf
+  split
+  · split <;> rfl
+  · rfl
+
+/-- one step of the pass with nothing resolved: the entry keeps its text -/
+theorem passStep_nil (ev : Str → EvalResult) (st : ExprSt) (e : Nat × ExprEntry) (hn : (st.exprs.map (·.1)).Nodup)
+    (he : e ∈ st.exprs) (hd : '$' ∈ e.2.expression) : C05.passStep ev [] st e = .ok st := by
+  have hc : e.2.expression.contains '$' = true := by simpa using hd
+  have hset : st.exprs.set e.1 { e.2 with expression := e.2.expression } = st.exprs := tbl_set_self hn he
+  unfold C05.passStep
+  simp only [plainOf_nil, C05.refFold_eq [] (fun r p h => by cases h), substAll_nil, bind, Except.bind, hc, if_true, hset,
+    pure, Except.pure]
+
+theorem foldlM_fix {α β : Type} (f : β → α → Except ParseErr β) (b : β) : ∀ (l : List α), (∀ a ∈ l, f b a = .ok b) →
+    l.foldlM f b = .ok b
+  | [], _ => rfl
+  | a :: l, h => by
+    rw [List.foldlM_cons, h a (by simp)]
+    exact foldlM_fix f b l (fun a' ha' => h a' (by simp [ha']))
+
+theorem evalPass_nil (ev : Str → EvalResult) (st : ExprSt) (hn : (st.exprs.map (·.1)).Nodup)
+    (hd : ∀ e ∈ st.exprs, '$' ∈ e.2.expression) : evalPass ev [] st = .ok st := by
+  rw [C05.evalPass_eq]
+  exact foldlM_fix _ st st.exprs fun e he => passStep_nil ev st e hn he (hd e he)
+
+/-- **`_eval_expressions` when every reference is dangling**: nothing is resolved, one pass changes nothing, the loop
+    stops, and every placeholder is replaced by its expression text -/
+theorem evalExpressions_dangling (ev : Str → EvalResult) {s : SD} (F : FlatSD s) (A : AllDangling s) :
+    evalExpressions ev s =
+      (s.exprs.foldlM (fun d e => substLeafEs e.2.name (.str e.2.expression) 1 d) s.data).map
+        fun d => { s with data := d, exprs := [] } := by
+  have hres := resolveAll_dangling F A
+  have hpass := evalPass_nil ev ⟨s.data, s.exprs⟩ F.2.2 (fun e he => (A e he).1)
+  have hloop : evalExpressions.loop ev (s.exprs.length + 2) ⟨s.data, s.exprs⟩ [] (C05.pendRefs s.exprs).length =
+      .ok ⟨s.data, s.exprs⟩ := by
+    rw [evalExpressions.loop.eq_2]
+    simp only [bind, Except.bind, hpass, hres, Nat.lt_irrefl, if_false, pure, Except.pure]
+  rw [evalExpressions.eq_1]
+  simp only [bind, Except.bind, hres, hloop]
+  cases s.exprs.foldlM (fun d e => substLeafEs e.2.name (.str e.2.expression) 1 d) s.data <;> rfl
+
+/-! ### 6. the final substitution, value by value -/
+
+/-- every placeholder replaced by its text -/
+def finalV (exprs : Tbl ExprEntry) (v : Val) : Val :=
+  exprs.foldl (fun v e => C05.updV e.2.name (.leaf (.str e.2.expression)) v) v
+
+theorem finalV_leaf (exprs : Tbl ExprEntry) : ∀ {v : Val}, v.isLeaf = true → (finalV exprs v).isLeaf = true := by
+  induction exprs with
+  | nil => intro v h; exact h
+  | cons e exprs ih => intro v h; exact ih (C05.updV_leaf _ h rfl)
+
+theorem final_flat : ∀ (exprs : Tbl ExprEntry) (d : Entries), (∀ x ∈ d, x.2.isLeaf = true) →
+    exprs.foldlM (fun d e => substLeafEs e.2.name (.str e.2.expression) 1 d) d =
+      .ok (d.map fun x => (x.1, finalV exprs x.2))
+  | [], d, _ => by
+    have : (d.map fun x => (x.1, finalV [] x.2)) = d := by simp [finalV]
+    rw [this]; rfl
+  | e :: exprs, d, h => by
+    rw [List.foldlM_cons, C05.substLeafEs_flat _ _ _ h]
+    simp only [bind, Except.bind]
+    rw [final_flat exprs _ (fun x hx => by
+      obtain ⟨v, hv, hx2⟩ := C05.mem_updEs hx
+      rw [hx2]; exact C05.updV_leaf _ (h _ hv) rfl)]
+    simp [C05.updEs, finalV, List.map_map, Function.comp_def]
+
+theorem finalV_nonstr (exprs : Tbl ExprEntry) {x : Scalar} (hx : ∀ t, x ≠ .str t) : finalV exprs (.leaf x) = .leaf x := by
+  induction exprs with
+  | nil => rfl
+  | cons e exprs ih =>
+    have : C05.updV e.2.name (.leaf (.str e.2.expression)) (.leaf x) = .leaf x := by
+      cases x <;> first | rfl | exact absurd rfl (hx _)
+    simp only [finalV, List.foldl_cons, this] at ih ⊢
+    exact ih
+
+theorem finalV_str (exprs : Tbl ExprEntry) {y : Str} (h : ∀ e ∈ exprs, isInfix e.2.name y = false) :
+    finalV exprs (.leaf (.str y)) = .leaf (.str y) := by
+  induction exprs with
+  | nil => rfl
+  | cons e exprs ih =>
+    have : C05.updV e.2.name (.leaf (.str e.2.expression)) (.leaf (.str y)) = .leaf (.str y) := by
+      simp [C05.updV, h e (by simp)]
+    simp only [finalV, List.foldl_cons, this] at ih ⊢
+    exact ih (fun e' he' => h e' (by simp [he']))
+
+theorem finalV_ph : ∀ (D : List (Nat × Str × Str)) (i : Nat) (k t : Str), (D.map (·.1)).Nodup →
+    (∀ p ∈ D, p.1 ≤ 999999) → (∀ p ∈ D, isInfix kwExpr p.2.2 = false) → (i, k, t) ∈ D →
+    finalV (toTbl D) (.leaf (.str (C05.phOf i))) = .leaf (.str t)
+  | [], _, _, _, _, _, _, h => by cases h
+  | p :: D, i, k, t, hn, hle, hkw, h => by
+    simp only [List.map_cons, List.nodup_cons] at hn
+    have hi : i < 1000000 := by have := hle _ h; omega
+    have hp : p.1 < 1000000 := by have := hle p (by simp); omega
+    by_cases hpi : p.1 = i
+    · have hpe : p = (i, k, t) := by
+        rcases List.mem_cons.mp h with h | h
+        · exact h.symm
+        · exact absurd (hpi ▸ List.mem_map_of_mem (f := (·.1)) h) hn.1
+      subst hpe
+      have hself : isInfix (C05.phOf i) (C05.phOf i) = true := C05.isInfix_iff.mpr ⟨[], [], by simp⟩
+      have h1 : C05.updV (C05.phOf i) (.leaf (.str t)) (.leaf (.str (C05.phOf i))) = .leaf (.str t) := by
+        simp [C05.updV, hself]
+      have h2 := finalV_str (toTbl D) (y := t) (fun e he => by
+        simp only [toTbl, List.mem_map] at he
+        obtain ⟨q, hq, rfl⟩ := he
+        exact C05.phOf_not_infix _ (hkw (i, k, t) (by simp)))
+      simp only [finalV, toTbl, List.map_cons, List.foldl_cons, h1] at h2 ⊢
+      exact h2
+    · have hm : (i, k, t) ∈ D := by
+        rcases List.mem_cons.mp h with h | h
+        · exact absurd (by rw [← h]) hpi
+        · exact h
+      have h1 : C05.updV (C05.phOf p.1) (.leaf (.str p.2.2)) (.leaf (.str (C05.phOf i))) = .leaf (.str (C05.phOf i)) := by
+        have : isInfix (C05.phOf p.1) (C05.phOf i) = false := by
+          cases hx : isInfix (C05.phOf p.1) (C05.phOf i) with
+          | false => rfl
+          | true => exact absurd (C05.phOf_infix hp hi hx) hpi
+        simp [C05.updV, this]
+      have ih := finalV_ph D i k t hn.2 (fun q hq => hle q (by simp [hq])) (fun q hq => hkw q (by simp [hq])) hm
+      simp only [finalV, toTbl, List.map_cons, List.foldl_cons, h1] at ih ⊢
+      exact ih
+
+/-! ### 7. a flat document whose references are all dangling -/
+
+/-- what an entry means when its references stay unresolved: the literal's value, the text of the reference or of the
+    expression -/
+def dvVal : DV → Scalar
+  | .lit l => l.den
+  | .ref n => .str ('$' :: n)
+  | .expr b => .str b
+
+def meanD (doc : Doc) : Entries := doc.map fun e => (.str e.1, .leaf (dvVal e.2))
+
+/-- an unresolved text among the names `ks`: none of its references names an entry (or is the header placeholder
+    word), and it carries neither `EXPRESSION` nor the header placeholder word -/
+def textOK (ks : List Str) (t : Str) : Bool :=
+  !isInfix kwExpr t && !isInfix C12.hdrPh t &&
+    (findRefs t).all fun r => !ks.contains (C05.refName r) && C05.refName r != C12.hdrPh
+
+/-- every reference of the document is dangling -/
+def docDangling (doc : Doc) : Bool := doc.all fun e => match textOfDV e.2 with
+  | some t => textOK (doc.map (·.1)) t
+  | none => true
+
+theorem wfExpr_of_text {v : DV} {t : Str} (hv : dvOK v = true) (ht : textOfDV v = some t) : C05.wfExpr t = true := by
+  cases v with
+  | lit l => cases ht
+  | ref n =>
+    simp only [textOfDV, Option.some.injEq] at ht
+    subst ht
+    simp only [dvOK, Bool.and_eq_true, Bool.not_eq_true', List.isEmpty_eq_false_iff] at hv
+    exact wfExpr_ref hv.1 hv.2
+  | expr b =>
+    simp only [textOfDV, Option.some.injEq] at ht
+    subst ht
+    exact (exprOK_iff.mp hv).1
+
+theorem refs_shape {t : Str} (h : C05.wfExpr t = true) :
+    '$' ∈ t ∧ ∀ r ∈ findRefs t, ∃ w, r = '$' :: w ∧ '[' ∉ w ∧ C05.refName r = w := by
+  refine ⟨wfExpr_dollar h, ?_⟩
+  simp only [C05.wfExpr, Bool.and_eq_true, beq_iff_eq] at h
+  obtain ⟨⟨⟨h1, h2⟩, _⟩, _⟩ := h
+  intro r hr
+  rw [← h1, C05.findRefs_render _ h2] at hr
+  simp only [C05.Segs.wf, Bool.and_eq_true] at h2
+  obtain ⟨w, rfl, _, hw⟩ := C05.refsOf_isRef _ h2.2 r hr
+  exact ⟨w, rfl, C05.allWord_noLb hw, C05.refName_ref hw⟩
+
+theorem dvVal_text {v : DV} {t : Str} (ht : textOfDV v = some t) : dvVal v = .str t := by
+  cases v with
+  | lit l => cases ht
+  | ref n => simp only [textOfDV, Option.some.injEq] at ht; subst ht; rfl
+  | expr b => simp only [textOfDV, Option.some.injEq] at ht; subst ht; rfl
+
+theorem fst_unique {α : Type} : ∀ {l : List (Str × α)} {a b : Str × α}, (l.map (·.1)).Nodup → a ∈ l → b ∈ l → a.1 = b.1 → a = b
+  | x :: l, a, b, hn, ha, hb, h => by
+    simp only [List.map_cons, List.nodup_cons] at hn
+    rcases List.mem_cons.mp ha with ha1 | ha1
+    · rcases List.mem_cons.mp hb with hb1 | hb1
+      · rw [ha1, hb1]
+      · have : x.1 ∈ l.map (·.1) := by rw [← ha1, h]; exact List.mem_map_of_mem (f := (·.1)) hb1
+        exact absurd this hn.1
+    · rcases List.mem_cons.mp hb with hb1 | hb1
+      · have : x.1 ∈ l.map (·.1) := by rw [← hb1, ← h]; exact List.mem_map_of_mem (f := (·.1)) ha1
+        exact absurd this hn.1
+      · exact fst_unique hn.2 ha1 hb1 h
+
+theorem map_eq_of_keys {α β γ : Type} (f : Str × α → γ) (g : Str × β → γ) : ∀ (L : List (Str × α)) (M : List (Str × β)),
+    L.map (·.1) = M.map (·.1) → (∀ e ∈ L, ∀ d ∈ M, e.1 = d.1 → f e = g d) → L.map f = M.map g
+  | [], [], _, _ => rfl
+  | [], _ :: _, h, _ => by cases h
+  | _ :: _, [], h, _ => by cases h
+  | e :: L, d :: M, h, hfg => by
+    simp only [List.map_cons, List.cons.injEq] at h ⊢
+    exact ⟨hfg e (by simp) d (by simp) h.1,
+      map_eq_of_keys f g L M h.2 (fun e' he' d' hd' => hfg e' (by simp [he']) d' (by simp [hd']))⟩
+
+theorem hdrPh_isPhKey : C05.isPhKey C12.hdrPh = true := by decide +kernel
+theorem hdrPh_noExpr : isInfix kwExpr C12.hdrPh = false := by decide +kernel
+
+/-- the data in front of the document's entries: nothing, or the header placeholder entry -/
+def preOf (hdr : Bool) : Entries := if hdr then [C12.hdrEntry] else []
+
+/-- **`_eval_expressions` on a parsed flat document whose references are all dangling** (with or without the header
+    placeholder entry in front): every entry ends as the text it was written as -/
+theorem eval_dangling_doc (ev : Str → EvalResult) {c : Counter} {doc : Doc} {D : List (Nat × Str × Str)}
+    (S : Shape c doc D) (hwf : DocWF doc = true) (hd : docDangling doc = true) (hdr : Bool) (B : Tbl Str) :
+    evalExpressions ev { data := preOf hdr ++ (exprSD c doc).data, exprs := (exprSD c doc).exprs, blockC := B } =
+      .ok { data := preOf hdr ++ meanD doc, blockC := B } := by
+  obtain ⟨hall, hkeys, _⟩ := docWF_iff.mp hwf
+  have hdata : (exprSD c doc).data = ldata (labelAll c doc).2 := rfl
+  have hpreK : ∀ k ∈ keys (preOf hdr), k = .str C12.hdrPh := by
+    intro k hk; cases hdr <;> simp [preOf, keys, C12.hdrEntry] at hk ⊢; exact hk
+  have hkeyne : ∀ e ∈ doc, e.1 ≠ C12.hdrPh := by
+    intro e he h
+    have := key_noPhKey (hall e he).1
+    rw [h, hdrPh_isPhKey] at this; cases this
+  have hdocK : keys (ldata (labelAll c doc).2) = (doc.map (·.1)).map Key.str := by rw [ldata_keys, S.keys_eq]
+  -- the pending entries
+  have htbl : ∀ e ∈ (exprSD c doc).exprs, ∃ p ∈ D, e = (p.1, ⟨p.2.2, C05.phOf p.1⟩) := by
+    intro e he
+    rw [S.exprs_eq, toTbl, List.mem_map] at he
+    obtain ⟨p, hp, rfl⟩ := he
+    exact ⟨p, hp, rfl⟩
+  have htext : ∀ p ∈ D, C05.wfExpr p.2.2 = true ∧ isInfix kwExpr p.2.2 = false ∧
+      ∀ r ∈ findRefs p.2.2, (doc.map (·.1)).contains (C05.refName r) = false ∧ C05.refName r ≠ C12.hdrPh := by
+    intro p hp
+    obtain ⟨⟨v, hm, ht⟩, _⟩ := S.bwd p hp
+    have h1 := List.all_eq_true.mp hd _ hm
+    simp only [ht, textOK, Bool.and_eq_true, Bool.not_eq_true', List.all_eq_true, bne_iff_ne, ne_eq] at h1
+    exact ⟨wfExpr_of_text (hall _ hm).2 ht, h1.1.1, fun r hr => h1.2 r hr⟩
+  have F : FlatSD { data := preOf hdr ++ (exprSD c doc).data, exprs := (exprSD c doc).exprs, blockC := B } := by
+    refine ⟨?_, ?_, ?_⟩
+    · intro d hd'
+      rcases List.mem_append.mp hd' with h | h
+      · cases hdr <;> simp [preOf, C12.hdrEntry] at h
+        subst h; exact ⟨rfl, rfl⟩
+      · rw [hdata, mem_ldata] at h
+        obtain ⟨e, _, rfl⟩ := h
+        exact ⟨rfl, rfl⟩
+    · show (keys (preOf hdr ++ (exprSD c doc).data)).Nodup
+      rw [hdata]
+      have hk : keys (preOf hdr ++ ldata (labelAll c doc).2) = keys (preOf hdr) ++ keys (ldata (labelAll c doc).2) := by
+        simp [keys]
+      rw [hk, hdocK]
+      refine List.nodup_append.mpr ⟨by cases hdr <;> simp [preOf, keys], ?_, ?_⟩
+      · exact nodup_map_inj (fun a b h => by cases h; rfl) hkeys
+      · intro a ha b hb hab
+        have h1 := hpreK a ha
+        have h2 := hb
+        simp only [List.mem_map] at h2
+        obtain ⟨k, ⟨e, he, rfl⟩, rfl⟩ := h2
+        rw [h1] at hab
+        exact hkeyne e he (Key.str.inj hab).symm
+    · show ((exprSD c doc).exprs.map (·.1)).Nodup
+      rw [S.exprs_eq, toTbl_ids]; exact S.ids_nodup
+  have A : AllDangling { data := preOf hdr ++ (exprSD c doc).data, exprs := (exprSD c doc).exprs, blockC := B } := by
+    intro e he
+    obtain ⟨p, hp, rfl⟩ := htbl e he
+    obtain ⟨hw, _, hdang⟩ := htext p hp
+    obtain ⟨hdol, hrefs⟩ := refs_shape hw
+    refine ⟨hdol, fun r hr => ?_⟩
+    obtain ⟨w, rfl, hb, hname⟩ := hrefs r hr
+    refine ⟨w, rfl, hb, ?_⟩
+    obtain ⟨hnot, hne⟩ := hdang _ hr
+    rw [hname] at hnot hne
+    rw [C05.lookup_none_iff]
+    show Key.str w ∉ keys (preOf hdr ++ (exprSD c doc).data)
+    rw [hdata]
+    have hk : keys (preOf hdr ++ ldata (labelAll c doc).2) = keys (preOf hdr) ++ keys (ldata (labelAll c doc).2) := by
+      simp [keys]
+    rw [hk, hdocK, List.mem_append, not_or]
+    refine ⟨fun h => hne (Key.str.inj (hpreK _ h)), fun h => ?_⟩
+    have h2 := h
+    simp only [List.mem_map] at h2
+    obtain ⟨k, hk, hkw⟩ := h2
+    have : k = w := Key.str.inj hkw
+    subst this
+    have : (doc.map (·.1)).contains k = true := by simpa using hk
+    rw [this] at hnot; cases hnot
+  rw [evalExpressions_dangling ev F A]
+  simp only
+  rw [final_flat _ _ (fun x hx => (F.1 x hx).2)]
+  simp only [Except.map]
+  -- the values
+  have hnoinf : ∀ {y : Str}, isInfix kwExpr y = false → ∀ e ∈ (exprSD c doc).exprs, isInfix e.2.name y = false := by
+    intro y hy e he
+    obtain ⟨p, _, rfl⟩ := htbl e he
+    exact C05.phOf_not_infix _ hy
+  have hpre : (preOf hdr).map (fun x => (x.1, finalV (exprSD c doc).exprs x.2)) = preOf hdr := by
+    cases hdr
+    · rfl
+    · simp only [preOf, if_true, List.map_cons, List.map_nil, C12.hdrEntry]
+      rw [finalV_str _ (hnoinf hdrPh_noExpr)]
+  have hdoc : (ldata (labelAll c doc).2).map (fun x => (x.1, finalV (exprSD c doc).exprs x.2)) = meanD doc := by
+    simp only [ldata, List.map_map, meanD]
+    refine map_eq_of_keys _ _ _ _ S.keys_eq ?_
+    intro e he d hd' hed
+    obtain ⟨v, hm, hv⟩ := S.fwd e he
+    have hdv : d = (e.1, v) := fst_unique hkeys hd' hm hed.symm
+    subst hdv
+    simp only [Function.comp, Prod.mk.injEq, true_and]
+    rcases hv with ⟨l, w, rfl, e2⟩ | ⟨i, t, ht, hD, e2⟩
+    · rw [e2]
+      simp only [LV.val, dvVal]
+      have hok := lit_okScalar (hall _ hm).2
+      cases hx : l.den with
+      | str y =>
+        rw [hx] at hok
+        exact finalV_str _ (hnoinf (usable_str (okScalar_iff.mp hok).1))
+      | int z => exact finalV_nonstr _ (fun t => by simp)
+      | float z => exact finalV_nonstr _ (fun t => by simp)
+      | bool z => exact finalV_nonstr _ (fun t => by simp)
+      | none => exact finalV_nonstr _ (fun t => by simp)
+    · rw [e2, dvVal_text ht]
+      simp only [LV.val]
+      rw [S.exprs_eq]
+      exact finalV_ph D i e.1 t S.ids_nodup S.ids_le (fun p hp => (htext p hp).2.1) hD
+  rw [hdata, List.map_append, hpre, hdoc]
+
+/-! ### 8. the native parser on `nativeHeader ++ document` -/
+
+
+/-- the lexer state with another block-comment table -/
+def withB (B : Tbl Str) (st : LexSt) : LexSt := { st with blockC := B }
+
+theorem lab1_withB (B : Tbl Str) (st : LexSt) (v : DV) : lab1 (withB B st) v = (withB B (lab1 st v).1, (lab1 st v).2) := by
+  cases v with
+  | lit l => cases l <;> rfl
+  | ref n => rfl
+  | expr b => rfl
+
+theorem labE_withB (sel : LV → Option Str) (B : Tbl Str) (st : LexSt) (v : LV) :
+    labE sel (withB B st) v = (withB B (labE sel st v).1, (labE sel st v).2) := by
+  unfold labE
+  cases sel v <;> rfl
+
+theorem mapSt_withB {α β : Type} (f : LexSt → α → LexSt × β) (B : Tbl Str)
+    (hf : ∀ st v, f (withB B st) v = (withB B (f st v).1, (f st v).2)) :
+    ∀ (d : List (Str × α)) (st : LexSt), mapSt f (withB B st) d = (withB B (mapSt f st d).1, (mapSt f st d).2)
+  | [], st => rfl
+  | (k, v) :: es, st => by
+    rw [mapSt_cons, mapSt_cons, hf]
+    simp only [mapSt_withB f B hf es (f st v).1]
+
+/-- the three passes from a state that already holds block comments -/
+theorem labelAll_withB (B : Tbl Str) (c : Counter) (doc : Doc) :
+    mapSt (labE selR)
+      (mapSt (labE selE) (mapSt lab1 { counter := c, blockC := B } doc).1 (mapSt lab1 { counter := c, blockC := B } doc).2).1
+      (mapSt (labE selE) (mapSt lab1 { counter := c, blockC := B } doc).1 (mapSt lab1 { counter := c, blockC := B } doc).2).2
+      = (withB B (labelAll c doc).1, (labelAll c doc).2) := by
+  have e0 : ({ counter := c, blockC := B } : LexSt) = withB B { counter := c } := rfl
+  rw [e0, mapSt_withB lab1 B (lab1_withB B)]
+  simp only
+  rw [mapSt_withB (labE selE) B (labE_withB selE B)]
+  simp only
+  rw [mapSt_withB (labE selR) B (labE_withB selR B)]
+  rfl
+
+theorem hdr_front_facts' {doc : Doc} {lay : Lay} {tail : Str} (h : DocWF doc = true) (hl : LayOK lay doc.length = true)
+    (ht : tail.all isWs = true) :
+    isInfix ['/', '/'] (nativeHeader ++ renderG doc lay tail) = false ∧
+    (∀ l ∈ splitLinesKeep (nativeHeader ++ renderG doc lay tail), (dropWs l).head? ≠ some '#') ∧
+    isInfix ['/', '*'] ('\n' :: renderG doc lay tail) = false := by
+  obtain ⟨m1, m2, _⟩ := renderG_noMarkup h hl ht
+  refine ⟨?_, ?_, ?_⟩
+  · refine C02.Main.infix2_append (by rw [C12.nativeHeader_eq]; exact C12.hdrChars_noSlashes) m1 ?_
+    intro h _
+    rw [C12.nativeHeader_split] at h
+    simp at h
+  · apply C02.Main.noHash_sound
+    rw [C02.Main.noHash_append, C12.nativeHeader_eq, C12.hdrChars_noHash.1, C12.hdrChars_noHash.2]
+    exact segs_noHash doc lay tail h hl ht true
+  · rw [C02.isInfix_cons, m2]
+    simp [List.isPrefixOf]
+
+/-- the layout behind the header placeholder word, after newline removal -/
+def hdrLay : Lay → Lay
+  | [] => []
+  | l :: ls => (' ' :: ' ' :: nlmap l.1, nlmap l.2.1, nlmap l.2.2) :: ls.map nlGaps
+
+theorem hdrLay_ok {lay : Lay} {n : Nat} (h : LayOK lay n = true) : LayOK (hdrLay lay) n = true := by
+  cases lay with
+  | nil => exact h
+  | cons l ls =>
+    have := layOK_map h
+    simp only [LayOK, Bool.and_eq_true, decide_eq_true_eq, List.map_cons, List.all_cons, List.length_cons,
+      List.length_map] at this
+    simp only [hdrLay, LayOK, Bool.and_eq_true, decide_eq_true_eq, List.all_cons, List.length_cons, List.length_map]
+    refine ⟨this.1, ?_, this.2.2⟩
+    obtain ⟨g1, g2, g2ne, g3⟩ := gapsOKb_iff.mp this.2.1
+    refine gapsOKb_iff.mpr ⟨?_, g2, g2ne, g3⟩
+    simp only [List.all_cons, Bool.and_eq_true]
+    exact ⟨by decide, by decide, g1⟩
+
+theorem nlmap_hdrPh : nlmap C12.hdrPh = C12.hdrPh := by decide +kernel
+
+/-- newline removal and `strip` on the placeholder word followed by the document -/
+theorem normalise_hdr' {doc : Doc} {lay : Lay} {tail : Str} (h : DocWF doc = true) (hne : doc ≠ [])
+    (hl : LayOK lay doc.length = true) (ht : tail.all isWs = true) :
+    strip (([' '] ++ C12.hdrPh ++ [' '] ++ '\n' :: renderG doc lay tail).map fun ch => if ch == '\n' then ' ' else ch) =
+      C12.hdrPh ++ segs DV.text (hdrLay lay) doc := by
+  have hall := (docWF_iff.mp h).1
+  cases doc with
+  | nil => exact absurd rfl hne
+  | cons e es =>
+    obtain ⟨l, ls, rfl, hg, hls⟩ := layOK_succ hl
+    have hm : ([' '] ++ C12.hdrPh ++ [' '] ++ '\n' :: renderG (e :: es) (l :: ls) tail).map
+        (fun ch => if ch == '\n' then ' ' else ch) =
+        [' '] ++ (C12.hdrPh ++ segs DV.text (hdrLay (l :: ls)) (e :: es)) ++ nlmap tail := by
+      have e1 : ([' '] ++ C12.hdrPh ++ [' '] ++ '\n' :: renderG (e :: es) (l :: ls) tail).map
+          (fun ch => if ch == '\n' then ' ' else ch) =
+          nlmap ([' '] ++ C12.hdrPh ++ [' '] ++ '\n' :: (segs DV.text (l :: ls) (e :: es) ++ tail)) := rfl
+      rw [e1]
+      have e2 : nlmap ([' '] ++ C12.hdrPh ++ [' '] ++ '\n' :: (segs DV.text (l :: ls) (e :: es) ++ tail)) =
+          [' '] ++ nlmap C12.hdrPh ++ [' ', ' '] ++ (nlmap (segs DV.text (l :: ls) (e :: es)) ++ nlmap tail) := by
+        simp [nlmap]
+      rw [e2, nlmap_hdrPh, nlmap_segs _ _ hall]
+      simp [hdrLay, segs_cons, nlGaps]
+    rw [hm]
+    have ht' : (nlmap tail).all isWs = true := C02.nl_ws_all _ ht
+    obtain ⟨x, _, hx, _⟩ : ∃ x y, C12.hdrPh = 'B' :: x ∧ C12.hdrPh = y ++ ['0'] := C12.hdrPh_shape
+    have hlen : (ls.map nlGaps).length = es.length := by
+      simp only [LayOK, Bool.and_eq_true, decide_eq_true_eq] at hls
+      simpa using hls.1
+    obtain ⟨y, hy⟩ := segs_last es (ls.map nlGaps)
+      (C12.hdrPh ++ (' ' :: ' ' :: nlmap l.1 ++ (e.1 ++ (nlmap l.2.1 ++ (e.2.text ++ nlmap l.2.2))))) hlen
+    refine C02.strip_core [' '] _ (nlmap tail) (x ++ segs DV.text (hdrLay (l :: ls)) (e :: es)) y 'B' ';' (by decide) ht'
+      (by rw [hx]; rfl) ?_ (by decide) (by decide)
+    rw [← hy]
+    simp [hdrLay, segs_cons]
+
+theorem hdrPh_noq : '"' ∉ C12.hdrPh := fun h => by have := (C12.hdrPh_chars _ h).2.2.2.1; simp [isQuote] at this
+theorem hdrPh_nod : '$' ∉ C12.hdrPh := fun h => (C12.hdrPh_chars _ h).2.2.1 rfl
+
+/-- **the native parser on a file that starts with the library's header and goes on with a well-formed flat document
+    with references and expressions** (any admissible layout): the header becomes block comment 0 and the placeholder
+    entry in front of the data; the rest is as in `parse_flat_exprs_layout` -- block comments do not draw from the
+    global counter -/
+theorem parse_hdr_exprs {doc : Doc} {lay : Lay} {tail : Str} (dir : Str) (c : Counter)
+    (h : DocWF doc = true) (hne : doc ≠ []) (hl : LayOK lay doc.length = true) (ht : tail.all isWs = true)
+    (hc : C13.ValidCounter Gen.counterLimit c) (hn : countIds doc ≤ Gen.counterLimit + 1) :
+    parseNative true dir c (nativeHeader ++ renderG doc lay tail) =
+      .ok ({ data := C12.hdrEntry :: (exprSD c doc).data, exprs := (exprSD c doc).exprs,
+             blockC := [(0, C12.hdrComment)] }, (labelAll c doc).1.counter) := by
+  obtain ⟨hall, hkeys, hbod⟩ := docWF_iff.mp h
+  obtain ⟨f1, f2, f3⟩ := hdr_front_facts' h hl ht
+  rw [C12.front_block true dir c f1 f2 (C12.hdr_blockStage true _ f3)]
+  simp only [if_true]
+  have hl0 : LayOK (hdrLay lay) doc.length = true := hdrLay_ok hl
+  let B : Tbl Str := [(0, C12.hdrComment)]
+  let st0 : LexSt := { counter := c, blockC := B }
+  -- names for the three passes
+  have hd1 : ldocOK (mapSt lab1 st0 doc).2 := pass1_ok h _
+  have hl1 : LayOK (hdrLay lay) (mapSt lab1 st0 doc).2.length = true := by rw [mapSt_length]; exact hl0
+  have hb1 : (exprBodiesL (mapSt lab1 st0 doc).2).Nodup := by rw [pass1_bodies]; exact hbod
+  have hd2 := passE_ok (sel := selE) hd1 (mapSt lab1 st0 doc).1
+  have hE2 := passE_noexpr (d := (mapSt lab1 st0 doc).2) (mapSt lab1 st0 doc).1
+  have hl2 : LayOK (hdrLay lay) (mapSt (labE selE) (mapSt lab1 st0 doc).1 (mapSt lab1 st0 doc).2).2.length = true := by
+    rw [mapSt_length]; exact hl1
+  have hd3 : ldocOK (labelAll c doc).2 := labelAll_ok c h
+  have ha3 : allDone (labelAll c doc).2 := by
+    have := passR_allDone (d := (mapSt (labE selE) (mapSt lab1 { counter := c } doc).1 (mapSt lab1 { counter := c } doc).2).2)
+      (mapSt (labE selE) (mapSt lab1 { counter := c } doc).1 (mapSt lab1 { counter := c } doc).2).1
+      (passE_noexpr (d := (mapSt lab1 { counter := c } doc).2) (mapSt lab1 { counter := c } doc).1)
+    exact this
+  have hk3 : ((labelAll c doc).2.map (·.1)).Nodup := by rw [labelAll_keys]; exact hkeys
+  have hlen3 : (labelAll c doc).2.length = doc.length := by simp only [labelAll, mapSt_length]
+  have hl3 : LayOK (hdrLay lay) (labelAll c doc).2.length = true := by rw [hlen3]; exact hl0
+  -- the literal stage
+  have hlex : lexLiteralsFuel ((C12.hdrPh ++ segs DV.text (hdrLay lay) doc).length + 1) st0 none
+      (C12.hdrPh ++ segs DV.text (hdrLay lay) doc) =
+      .ok ((mapSt lab1 st0 doc).1, C12.hdrPh ++ segs LV.text (hdrLay lay) (mapSt lab1 st0 doc).2) := by
+    have h1 := lex1_segs doc (hdrLay lay) hall hl0 [] st0 (mapSt lab1 st0 doc).1 []
+      (fun fuel prev _ _ => C02.lex_nil fuel _ prev)
+    simp only [List.append_nil] at h1
+    exact C02.lex_copy C12.hdrPh _ st0 _ _ (fun c hc => (C12.hdrPh_chars c hc).2.2.2.1)
+      (fun c hc => (C12.hdrPh_chars c hc).2.2.2.2) h1 _ none (Nat.le_succ _) (by simp)
+  -- the expression stage
+  have hlexE : lexExpressions (mapSt lab1 st0 doc).1 (C12.hdrPh ++ segs LV.text (hdrLay lay) (mapSt lab1 st0 doc).2) =
+      (withB B (labelAll c doc).1, C12.hdrPh ++ segs LV.text (hdrLay lay) (labelAll c doc).2) := by
+    rw [lexExpressions_eq, findExprs_segs _ _ hd1 hl1 C12.hdrPh _ hdrPh_noq (Nat.le_succ _),
+      foldE_segs _ _ hd1 hl1 hb1 C12.hdrPh _ hdrPh_noq]
+    simp only
+    have hcr := countR_le (mapSt (labE selE) (mapSt lab1 st0 doc).1 (mapSt lab1 st0 doc).2).2
+    have hlen2 : (hdrLay lay).length = (mapSt (labE selE) (mapSt lab1 st0 doc).1 (mapSt lab1 st0 doc).2).2.length := by
+      simp only [LayOK, Bool.and_eq_true, decide_eq_true_eq] at hl2; exact hl2.1
+    have hsl := segs_length LV.text _ _ hlen2
+    rw [lexRefs_segs _ _ hd2 hl2 hE2 C12.hdrPh _ _ hdrPh_nod (by simp only [List.length_append]; omega)]
+    rw [labelAll_withB B c doc]
+  -- tokens
+  have hph := C12.blockPh_tok 0
+  have htoks : toksEs (C12.hdrEntry :: treeOf (labelAll c doc).2) = C12.hdrPh :: toksEs (treeOf (labelAll c doc).2) := by
+    simp only [C12.hdrEntry, toksEs, C12.hdrPh, hph.2, if_true, List.singleton_append]
+  have hden : denEs (C12.hdrEntry :: treeOf (labelAll c doc).2) [] = denEs (treeOf (labelAll c doc).2) [C12.hdrEntry] := by
+    simp only [C12.hdrEntry, denEs, C12.hdrPh, hph.2, if_true, setKey]
+  have hlenL : (hdrLay lay).length = (labelAll c doc).2.length := by
+    simp only [LayOK, Bool.and_eq_true, decide_eq_true_eq] at hl3; exact hl3.1
+  have hgl := gapsOK_all _ _ hd3 hl3
+  have hhead : (gapsOfLay (hdrLay lay)).headD [] ≠ [] := by
+    cases lay with
+    | nil =>
+      cases doc with
+      | nil => exact absurd rfl hne
+      | cons e es => simp [LayOK] at hl
+    | cons l ls => simp [hdrLay, gapsOfLay]
+  have hscan := C02.C02_layout_tolerant_tokens (C12.hdrEntry :: treeOf (labelAll c doc).2) ([] :: gapsOfLay (hdrLay lay)) []
+    (by
+      simp only [C12.hdrEntry, TokWFEs, C12.hdrPh, hph.2, hph.1, if_true, beq_self_eq_true, Bool.and_self, Bool.true_and]
+      exact tokWF_tree _ hd3 ha3)
+    (by rw [htoks]; exact C12.gapsOK_lead _ _ _ hgl (Or.inr hhead)) rfl
+  have hspread : spread (toksEs (C12.hdrEntry :: treeOf (labelAll c doc).2)) ([] :: gapsOfLay (hdrLay lay)) [] =
+      C12.hdrPh ++ segs LV.text (hdrLay lay) (labelAll c doc).2 := by
+    rw [htoks]
+    simp only [spread, List.nil_append]
+    rw [spread_segs _ _ hd3 hlenL]
+  rw [hspread, hden] at hscan
+  -- the literal table
+  obtain ⟨p1, p2, _, _⟩ := pass1_state doc { counter := c }
+  have hq : cnt isQuotedDV doc ≤ Gen.counterLimit + 1 := by unfold countIds at hn; omega
+  have hnd : ((drawn1 { counter := c } doc).map (·.1)).Nodup := by rw [p2]; exact C13.alloc_nodup hq hc
+  have hle : ∀ p ∈ drawn1 { counter := c } doc, p.1 ≤ 999999 := by
+    intro p hp
+    have : p.1 ∈ alloc Gen.counterLimit (cnt isQuotedDV doc) c := by
+      rw [← p2]; exact List.mem_map.mpr ⟨p, hp, rfl⟩
+    have := C13.alloc_le hc _ _ this
+    rw [limit_eq] at this; exact this
+  have hT : (labelAll c doc).1.lits = drawn1 { counter := c } doc := by
+    simp only [labelAll]
+    rw [(passE_state selR _ _).2.2.2.1, (passE_state selE _ _).2.2.2.1, p1,
+      C02.setAll_nodup _ _ (by simpa using hnd)]
+    rfl
+  have hrel : ∀ e ∈ (labelAll c doc).2, DoneRel (drawn1 { counter := c } doc) e.2 :=
+    passE_rel _ (passE_rel _ (pass1_rel _ doc _ (fun e he => (hall e he).2) (fun _ hp => hp)))
+  have hkeyne : Key.str C12.hdrPh ∉ (labelAll c doc).2.map fun e => Key.str e.1 := by
+    intro hm
+    simp only [List.mem_map] at hm
+    obtain ⟨e, he, hk⟩ := hm
+    have := key_noPhKey (hd3 e he).1
+    rw [Key.str.inj hk, hdrPh_isPhKey] at this; cases this
+  have hins : insertLiterals (withB B (labelAll c doc).1).lits (denEs (treeOf (labelAll c doc).2) [C12.hdrEntry]) =
+      .ok (C12.hdrEntry :: ldata (labelAll c doc).2) := by
+    show insertLiterals (labelAll c doc).1.lits _ = _
+    rw [hT, denEs_tree _ hd3]
+    have hacc : denAcc (fun v => .leaf v.val) (labelAll c doc).2 [C12.hdrEntry] = C12.hdrEntry :: ldata (labelAll c doc).2 := by
+      rw [denAcc_nodup _ _ [C12.hdrEntry] (by
+        simp only [keys, List.map_cons, List.map_nil, List.singleton_append, List.nodup_cons, C12.hdrEntry]
+        refine ⟨hkeyne, ?_⟩
+        have : ((labelAll c doc).2.map fun e => Key.str e.1) = ((labelAll c doc).2.map (·.1)).map Key.str := by simp
+        rw [this]
+        exact nodup_map_inj (fun a b h => by cases h; rfl) hk3)]
+      simp [ldata]
+    rw [← hacc]
+    refine C02.insertLiterals_of_rel _ hnd hle (drawn1_clean doc _ (fun e he => (hall e he).2)) _ _
+      (REs_denAcc _ _ ha3 hrel [C12.hdrEntry] [C12.hdrEntry] ?_)
+    simp only [C02.REs, C12.hdrEntry]
+    exact ⟨_, _, rfl, by simp only [C02.RV]; exact Or.inl ⟨C12.hdrPh_noLit, trivial⟩, rfl⟩
+  -- together
+  have hP : C12.parseBlockSt st0 ([' '] ++ C12.hdrPh ++ [' '] ++ '\n' :: renderG doc lay tail) =
+      .ok (C12.hdrEntry :: ldata (labelAll c doc).2, withB B (labelAll c doc).1) := by
+    unfold C12.parseBlockSt
+    rw [normalise_hdr' h hne hl ht]
+    unfold C12.parseBlockSt'
+    simp only [hlex, bind, Except.bind, hlexE, hscan, hins]
+    rfl
+  show (C12.parseBlockSt st0 _).map _ = _
+  rw [hP]
+  simp only [Except.map]
+  have hfin : C12.finishSD (C12.hdrEntry :: ldata (labelAll c doc).2) (withB B (labelAll c doc).1) =
+      ({ data := C12.hdrEntry :: ldata (labelAll c doc).2, exprs := (labelAll c doc).1.exprs, blockC := B },
+        (labelAll c doc).1.counter) := by
+    have hL : (labelAll c doc).1.lineC = [] ∧ (labelAll c doc).1.incl = [] := by
+      have s1 := (pass1_state doc { counter := c }).2.2.2
+      have s2 := (passE_state selE (mapSt lab1 { counter := c } doc).2 (mapSt lab1 { counter := c } doc).1).2.2.2.2
+      have s3 := (passE_state selR
+        (mapSt (labE selE) (mapSt lab1 { counter := c } doc).1 (mapSt lab1 { counter := c } doc).2).2
+        (mapSt (labE selE) (mapSt lab1 { counter := c } doc).1 (mapSt lab1 { counter := c } doc).2).1).2.2.2.2
+      have e3 : labelAll c doc = mapSt (labE selR)
+          (mapSt (labE selE) (mapSt lab1 { counter := c } doc).1 (mapSt lab1 { counter := c } doc).2).1
+          (mapSt (labE selE) (mapSt lab1 { counter := c } doc).1 (mapSt lab1 { counter := c } doc).2).2 := rfl
+      rw [e3]
+      exact ⟨s3.1.trans (s2.1.trans s1.1), s3.2.1.trans (s2.2.1.trans s1.2.1)⟩
+    have hv : lookup (.str "_variables".toList) (ldata (labelAll c doc).2) = none := by
+      rw [lookup_eq_none_iff, ldata_keys]
+      intro hm
+      simp only [List.mem_map] at hm
+      obtain ⟨k, ⟨a, ha, rfl⟩, hk⟩ := hm
+      exact (keyOK_iff.mp (hd3 a ha).1).2.2.2.1 (Key.str.inj hk)
+    have hi : lookup (.str "_includes".toList) (ldata (labelAll c doc).2) = none := by
+      rw [lookup_eq_none_iff, ldata_keys]
+      intro hm
+      simp only [List.mem_map] at hm
+      obtain ⟨k, ⟨a, ha, rfl⟩, hk⟩ := hm
+      exact (keyOK_iff.mp (hd3 a ha).1).2.2.2.2 (Key.str.inj hk)
+    simp only [C12.finishSD, withB, hL.1, hL.2]
+    rw [C12.clean_single_header _ C12.hdrComment (ldata (labelAll c doc).2) rfl rfl (ldata_noPh hd3) (ldata_nodupV hk3)]
+    simp only
+    rw [C02.dropDocKeys_id (by rw [C12.lookup_hdr_cons C12.docKey_ne_hdr.1]; exact hv)
+      (by rw [C12.lookup_hdr_cons C12.docKey_ne_hdr.2]; exact hi)]
+  rw [hfin]
+  rfl
+
+/-! ### 9. `DictReader.read` on documents whose references are all dangling -/
+
+theorem countIds_le (doc : Doc) : countIds doc ≤ doc.length := by
+  induction doc with
+  | nil => exact Nat.le_refl _
+  | cons e es ih =>
+    simp only [countIds, cnt_cons, List.length_cons] at ih ⊢
+    cases e.2 with
+    | lit l => cases l <;> simp [isQuotedDV, isExprDV, isRefDV] <;> omega
+    | ref n => simp [isQuotedDV, isExprDV, isRefDV]; omega
+    | expr b => simp [isQuotedDV, isExprDV, isRefDV]; omega
+
+/-- a source without header: the read returns every entry as the text (or literal value) it was written as -/
+theorem readFile_dangling {doc : Doc} {lay : Lay} {tail : Str} (ev : Str → EvalResult) (p : Comps) (c : Counter)
+    (h : DocWF doc = true) (hl : LayOK lay doc.length = true) (ht : tail.all isWs = true)
+    (hc : C13.ValidCounter Gen.counterLimit c) (hn : countIds doc ≤ Gen.counterLimit + 1) (hd : docDangling doc = true)
+    (hj : isJsonPath p = false) (hx : isXmlPath p = false) (hres : resolveSpelled p = p) :
+    readFile ev [(p, .native (renderG doc lay tail))] {} c p =
+      .ok (.ok { data := meanD doc } (labelAll c doc).1.counter) := by
+  obtain ⟨D, S⟩ := exprSD_shape c h hc hn
+  rw [readFile_layout ev p c h hl ht hc hn hj hx hres]
+  have := eval_dangling_doc ev S h hd false []
+  simp only [preOf, Bool.false_eq_true, if_false, List.nil_append] at this
+  have e : exprSD c doc = { data := (exprSD c doc).data, exprs := (exprSD c doc).exprs, blockC := [] } := rfl
+  rw [e, this]
+  rfl
+
+/-- a file the library wrote (header in front): the same, with the header placeholder entry and the header comment -/
+theorem readFile_hdr_dangling {doc : Doc} {lay : Lay} {tail : Str} (ev : Str → EvalResult) (p : Comps) (c : Counter)
+    (h : DocWF doc = true) (hne : doc ≠ []) (hl : LayOK lay doc.length = true) (ht : tail.all isWs = true)
+    (hc : C13.ValidCounter Gen.counterLimit c) (hn : countIds doc ≤ Gen.counterLimit + 1) (hd : docDangling doc = true)
+    (hj : isJsonPath p = false) (hx : isXmlPath p = false) (hres : resolveSpelled p = p) :
+    readFile ev [(p, .native (nativeHeader ++ renderG doc lay tail))] {} c p =
+      .ok (.ok (C12.hdrSD (meanD doc)) (labelAll c doc).1.counter) := by
+  obtain ⟨D, S⟩ := exprSD_shape c h hc hn
+  have hparse := parse_hdr_exprs (pathStr p.dropLast) c h hne hl ht hc hn
+  have hpf : parseFile [(p, .native (nativeHeader ++ renderG doc lay tail))] true c p =
+      .ok ({ data := C12.hdrEntry :: (exprSD c doc).data, exprs := (exprSD c doc).exprs,
+             blockC := [(0, C12.hdrComment)] }, (labelAll c doc).1.counter) := by
+    simp only [parseFile, hx, hres, C01.fs_get_single, hj, hparse]
+    rfl
+  have hkeys : ((labelAll c doc).2.map (·.1)).Nodup := by
+    rw [labelAll_keys]; exact (docWF_iff.mp h).2.1
+  have hp := ldata_noPh (labelAll_ok c h)
+  have hnd := ldata_nodupV hkeys
+  have hcl := C12.clean_single_header
+    { data := C12.hdrEntry :: (exprSD c doc).data, exprs := (exprSD c doc).exprs, blockC := [(0, C12.hdrComment)] }
+    C12.hdrComment (ldata (labelAll c doc).2) rfl rfl hp hnd
+  have hmi := C01.mergeIncludes_clean [(p, .native (nativeHeader ++ renderG doc lay tail))] true
+    { data := C12.hdrEntry :: (exprSD c doc).data, exprs := (exprSD c doc).exprs, blockC := [(0, C12.hdrComment)] }
+    p.dropLast (labelAll c doc).1.counter rfl hcl (C12.hdr_nodup hp hnd)
+  have hev := eval_dangling_doc ev S h hd true [(0, C12.hdrComment)]
+  simp only [preOf, if_true, List.singleton_append] at hev
+  simp only [readFile, hpf, bind, Except.bind, pure, Except.pure]
+  simp only [if_true, hmi, hev]
+  rfl
+
+
+/-! ### 10. the writer on such a dict -/
+
+/-- a value as the writer spells it: literals in the writer's spelling (`writtenLit`), an unresolved text that is
+    exactly one reference bare, any other unresolved text in double quotes -/
+def respellV : DV → DV
+  | .lit l => .lit (writtenLit .native l.den)
+  | .ref n => .ref n
+  | .expr b => if isReferenceString b then .ref (b.drop 1) else .expr b
+
+def respell (doc : Doc) : Doc := doc.map fun e => (e.1, respellV e.2)
+
+/-- the writer's padding between key and value (level 0) -/
+def pad (k : Str) : Str := spaces (max 8 (30 - k.length))
+
+/-- the writer's layout: one entry per line, key padded to column 30 -/
+def wLay : Doc → Lay
+  | [] => []
+  | e :: es => ([], pad e.1, []) :: es.map fun e => (['\n'], pad e.1, [])
+
+def wTail (doc : Doc) : Str := if doc.isEmpty then [] else ['\n']
+
+def lineOf (e : Str × DV) : Str := e.1 ++ (pad e.1 ++ (e.2.text ++ [';']))
+
+theorem pad_ok (k : Str) : (pad k).all isWs = true ∧ pad k ≠ [] := by
+  refine ⟨C01.spaces_ws _, ?_⟩
+  have : 0 < max 8 (30 - k.length) := by omega
+  unfold pad spaces
+  intro h
+  have := congrArg List.length h
+  simp at this
+
+theorem wLay_ok (doc : Doc) : LayOK (wLay doc) doc.length = true := by
+  cases doc with
+  | nil => rfl
+  | cons e es =>
+    simp only [LayOK, wLay, Bool.and_eq_true, decide_eq_true_eq, List.length_cons, List.length_map, List.all_cons,
+      List.all_map, List.all_eq_true, true_and]
+    refine ⟨gapsOKb_iff.mpr ⟨rfl, (pad_ok _).1, (pad_ok _).2, rfl⟩, fun x _ => ?_⟩
+    exact gapsOKb_iff.mpr ⟨(by decide : (['\n'] : Str).all isWs = true), (pad_ok _).1, (pad_ok _).2, rfl⟩
+
+theorem wTail_ws (doc : Doc) : (wTail doc).all isWs = true := by
+  unfold wTail; split <;> decide
+
+theorem wrest : ∀ (es : Doc), segs DV.text (es.map fun e => (['\n'], pad e.1, [])) es ++ ['\n'] =
+    '\n' :: es.flatMap fun e => lineOf e ++ ['\n']
+  | [] => rfl
+  | e :: es => by
+    have ih := wrest es
+    rw [List.map_cons, segs_cons]
+    simp only [List.append_assoc, List.cons_append, List.nil_append, List.flatMap_cons, lineOf] at ih ⊢
+    rw [ih]
+
+/-- the writer's layout of a document, line by line -/
+theorem renderG_wLay (doc : Doc) : renderG doc (wLay doc) (wTail doc) = doc.flatMap fun e => lineOf e ++ ['\n'] := by
+  cases doc with
+  | nil => rfl
+  | cons e es =>
+    have ih := wrest es
+    rw [renderG, wLay, segs_cons]
+    simp only [wTail, List.isEmpty_cons, Bool.false_eq_true, if_false, List.append_assoc, List.cons_append,
+      List.nil_append, List.flatMap_cons, lineOf] at ih ⊢
+    rw [ih]
+
+theorem dropWhile_all {p : Char → Bool} : ∀ (l : Str), (∀ x ∈ l, p x = true) → l.dropWhile p = []
+  | [], _ => rfl
+  | c :: l, h => by
+    rw [List.dropWhile_cons, if_pos (h c (by simp))]
+    exact dropWhile_all l (fun x hx => h x (by simp [hx]))
+
+theorem isRef_of_word {n : Str} (hne : n ≠ []) (hw : n.all isWordChar = true) : isReferenceString ('$' :: n) = true := by
+  cases n with
+  | nil => exact absurd rfl hne
+  | cons c r =>
+    simp only [List.all_cons, Bool.and_eq_true] at hw
+    have : (r.dropWhile fun x => isWordChar x || x == '[' || x == ']') = [] :=
+      dropWhile_all r (fun x hx => by simp [List.all_eq_true.mp hw.2 x hx])
+    simp [isReferenceString, hw.1, this, atDollar]
+
+/-- `format_string` on a string with `$`: bare if it is exactly one reference, in double quotes otherwise -/
+theorem formatString_dollar {s : Str} (h : s.contains '$' = true) :
+    formatString .native s = if isReferenceString s then s else dq s := by
+  unfold formatString
+  simp only [h, if_true]
+
+theorem refString_head {b : Str} (h : isReferenceString b = true) : '$' :: b.drop 1 = b := by
+  unfold isReferenceString at h
+  split at h
+  · rfl
+  · cases h
+
+/-- what the writer writes for the value of an entry -/
+theorem formatScalar_dvVal {v : DV} (hv : dvOK v = true) : formatScalar .native (dvVal v) = (respellV v).text := by
+  cases v with
+  | lit l => exact (C01.writtenLit_text l.den).symm
+  | ref n =>
+    simp only [dvOK, Bool.and_eq_true, Bool.not_eq_true', List.isEmpty_eq_false_iff] at hv
+    have hd : ('$' :: n).contains '$' = true := by simp
+    simp only [dvVal, respellV, formatScalar, formatString_dollar hd, isRef_of_word hv.1 hv.2, if_true, DV.text]
+  | expr b =>
+    have hd : b.contains '$' = true := by simpa using wfExpr_dollar (exprOK_iff.mp hv).1
+    simp only [dvVal, respellV, formatScalar, formatString_dollar hd]
+    cases hr : isReferenceString b with
+    | true => simp only [if_true, DV.text, refString_head hr]
+    | false => simp [DV.text, dq]
+
+theorem fmtEntries_meanD : ∀ (doc : Doc), (∀ e ∈ doc, keyOK e.1 = true ∧ dvOK e.2 = true) →
+    fmtEntries .native 0 (meanD doc) = (respell doc).flatMap fun e => lineOf e ++ ['\n']
+  | [], _ => by simp [meanD, respell, fmtEntries]
+  | e :: es, h => by
+    obtain ⟨hk, hv⟩ := h e (by simp)
+    have ih := fmtEntries_meanD es (fun e' he' => h e' (by simp [he']))
+    have hkey : formatKey .native (.str e.1) = e.1 := C01.formatKey_eq_keyStr (isDomKey_of_keyOK hk)
+    simp only [meanD, List.map_cons, fmtEntries, hkey, respell, List.flatMap_cons] at ih ⊢
+    rw [ih, formatScalar_dvVal hv]
+    simp [fline, spaces, lineOf, pad]
+
+theorem meanD_noPhKeys {doc : Doc} (h : ∀ e ∈ doc, keyOK e.1 = true) : ∀ k ∈ keys (meanD doc), C07.isPhKey k = false := by
+  intro k hk
+  simp only [meanD, keys, List.map_map, List.mem_map, Function.comp] at hk
+  obtain ⟨e, he, rfl⟩ := hk
+  exact C02.Main.typedKey_noPh (keyOK_iff.mp (h e he)).1 (key_facts (h e he)).2.2
+
+theorem lineOf_good {e : Str × DV} (hk : keyOK e.1 = true) (hv : dvOK e.2 = true) :
+    C12.goodLineB (lineOf e) = true ∧ ∀ c ∈ lineOf e ++ ['\n'], c ≠ '\r' := by
+  have hkc := word_chars (keyOK_iff.mp hk).2.1
+  have hvf := vfacts_dv hv
+  have hpad : ∀ c ∈ pad e.1, c = ' ' := fun c hc => by
+    simp only [pad, spaces, List.mem_replicate] at hc; exact hc.2
+  constructor
+  · have hrev : (lineOf e).reverse = ';' :: (e.1 ++ (pad e.1 ++ e.2.text)).reverse := by simp [lineOf]
+    simp only [C12.goodLineB, hrev, Bool.and_eq_true, Bool.not_eq_true', List.all_eq_true, bne_iff_ne, ne_eq,
+      List.mem_reverse, List.mem_append]
+    refine ⟨by decide, ?_⟩
+    rintro c (hc | hc | hc)
+    · exact key_no_nl hk c hc
+    · rw [hpad c hc]; decide
+    · exact dv_no_nl hv c hc
+  · intro c hc
+    simp only [lineOf, List.mem_append, List.mem_singleton, List.mem_cons, List.not_mem_nil, or_false] at hc
+    rcases hc with (hc | hc | hc | hc) | hc
+    · rintro rfl; have := (hkc _ hc).1; revert this; decide
+    · rw [hpad c hc]; decide
+    · rintro rfl; have := hvf.nolb _ hc; revert this; decide
+    · rw [hc]; decide
+    · rw [hc]; decide
+
+/-- **the bytes the writer writes for such a dict**: the default header, then the document in the writer's spelling
+    and layout -/
+theorem fmtSD_meanD {doc : Doc} (h : ∀ e ∈ doc, keyOK e.1 = true ∧ dvOK e.2 = true)
+    (h' : ∀ e ∈ respell doc, keyOK e.1 = true ∧ dvOK e.2 = true) :
+    fmtSD .native { data := meanD doc } =
+      some (nativeHeader ++ renderG (respell doc) (wLay (respell doc)) (wTail (respell doc))) := by
+  rw [C12.fmtSD_text]
+  congr 2
+  rw [show fmtPlain .native (meanD doc) = removeTrailingSpaces (fmtEntries .native 0 (hoistPlaceholders (meanD doc))) from rfl,
+    C12.hoist_noPh (meanD_noPhKeys fun e he => (h e he).1), fmtEntries_meanD doc h, renderG_wLay]
+  have hlines : ((respell doc).flatMap fun e => lineOf e ++ ['\n']) = ((respell doc).map lineOf).flatMap (· ++ ['\n']) := by
+    simp [List.flatMap_map]
+  rw [hlines, C01.removeTrailingSpaces_eq]
+  have hcr : ∀ c ∈ ((respell doc).map lineOf).flatMap (· ++ ['\n']), c ≠ '\r' := by
+    intro c hc
+    simp only [List.mem_flatMap, List.mem_map] at hc
+    obtain ⟨l, ⟨e, he, rfl⟩, hc⟩ := hc
+    exact (lineOf_good (h' e he).1 (h' e he).2).2 c hc
+  have h1 := C01.universalNl_solid [] _ hcr
+  simp only [List.append_nil] at h1
+  rw [h1]
+  have hu : universalNl [] = [] := rfl
+  rw [hu, List.append_nil]
+  have h2 := C12.rts_lines [] ((respell doc).map lineOf) (fun l hl => by
+    simp only [List.mem_map] at hl
+    obtain ⟨e, he, rfl⟩ := hl
+    exact (lineOf_good (h' e he).1 (h' e he).2).1)
+  simp only [List.append_nil, C01.rts_nil] at h2
+  exact h2
+
+/-! ### 11. respelling changes neither the meaning nor the hypotheses -/
+
+theorem textOf_respellV (v : DV) : textOfDV (respellV v) = textOfDV v := by
+  cases v with
+  | lit l => rfl
+  | ref n => rfl
+  | expr b =>
+    simp only [respellV]
+    split
+    · rename_i h; simp only [textOfDV, refString_head h]
+    · rfl
+
+theorem respell_keys (doc : Doc) : (respell doc).map (·.1) = doc.map (·.1) := by simp [respell]
+
+theorem respell_dangling (doc : Doc) : docDangling (respell doc) = docDangling doc := by
+  simp only [docDangling, respell_keys]
+  simp only [respell, List.all_map]
+  congr 1
+  funext e
+  simp only [Function.comp, textOf_respellV]
+
+theorem dvVal_respellV {v : DV} (hv : dvOK v = true) (hl : ∀ l, v = .lit l → isDomScalar .native l.den = true) :
+    dvVal (respellV v) = dvVal v := by
+  cases v with
+  | lit l =>
+    simp only [respellV, dvVal]
+    rw [C01.den_writtenLit (hl l rfl), C03.normScalar_den hv]
+  | ref n => rfl
+  | expr b =>
+    simp only [respellV]
+    split
+    · rename_i h; simp only [dvVal, refString_head h]
+    · rfl
+
+theorem meanD_respell {doc : Doc} (h : DocWF doc = true) (hl : litsInDom doc = true) : meanD (respell doc) = meanD doc := by
+  simp only [meanD, respell, List.map_map]
+  apply List.map_congr_left
+  intro e he
+  simp only [Function.comp, Prod.mk.injEq, true_and, Val.leaf.injEq]
+  refine dvVal_respellV ((docWF_iff.mp h).1 e he).2 (fun l hv => ?_)
+  have := List.all_eq_true.mp hl e he
+  rw [hv] at this
+  exact this
+
+/-! ### 12. the header placeholder word does not occur in the written text -/
+
+theorem noInfix_app {p x y : Str} (hx : isInfix p x = false) (hy : isInfix p y = false)
+    (h : (∀ c ∈ x, c ∉ p) ∨ (∀ c, y.head? = some c → c ∉ p)) : isInfix p (x ++ y) = false := by
+  cases hi : isInfix p (x ++ y) with
+  | false => rfl
+  | true =>
+    rcases C12.infix_append_cases hi with h1 | h1 | ⟨p1, c2, p2, hp, hne, hin, hhd⟩
+    · rw [hx] at h1; cases h1
+    · rw [hy] at h1; cases h1
+    · rcases h with h | h
+      · cases p1 with
+        | nil => exact absurd rfl hne
+        | cons c p1 => exact absurd (by rw [hp]; simp) (h c (hin c (by simp)))
+      · exact absurd (by rw [hp]; simp) (h c2 hhd)
+
+theorem hdrPh_seps : ' ' ∉ C12.hdrPh ∧ ';' ∉ C12.hdrPh ∧ '\n' ∉ C12.hdrPh ∧ '"' ∉ C12.hdrPh ∧ '$' ∉ C12.hdrPh := by
+  rw [C12.hdrPh_eq]; decide
+
+theorem hdrPh_ne : C12.hdrPh ≠ [] := by rw [C12.hdrPh_eq]; decide
+
+theorem noHdr_single {c : Char} (h : c ∉ C12.hdrPh) : isInfix C12.hdrPh [c] = false := by
+  obtain ⟨x, _, hx, _⟩ : ∃ x y, C12.hdrPh = 'B' :: x ∧ C12.hdrPh = y ++ ['0'] := C12.hdrPh_shape
+  rw [hx]
+  apply C01.not_infix_of_head
+  intro hm
+  simp only [List.mem_singleton] at hm
+  exact h (by rw [← hm, hx]; simp)
+
+theorem noHdr_spaces (n : Nat) : isInfix C12.hdrPh (spaces n) = false := by
+  obtain ⟨x, _, hx, _⟩ : ∃ x y, C12.hdrPh = 'B' :: x ∧ C12.hdrPh = y ++ ['0'] := C12.hdrPh_shape
+  rw [hx]
+  apply C01.not_infix_of_head
+  intro hm
+  simp only [spaces, List.mem_replicate] at hm
+  exact absurd hm.2 (by decide)
+
+theorem noHdr_text {v : DV} (hv : dvOK v = true) (ht : ∀ t, textOfDV v = some t → isInfix C12.hdrPh t = false) :
+    isInfix C12.hdrPh v.text = false := by
+  cases v with
+  | lit l => exact C12.noHdrPh_of_noComment (C12.tok_noComment (lit_tokOK hv)).1
+  | ref n => exact ht _ rfl
+  | expr b =>
+    have hb := ht b rfl
+    have e : (DV.expr b).text = ['"'] ++ (b ++ ['"']) := rfl
+    rw [e]
+    exact noInfix_app (noHdr_single hdrPh_seps.2.2.2.1)
+      (noInfix_app hb (noHdr_single hdrPh_seps.2.2.2.1) (Or.inr fun c hc => by
+        simp only [List.head?_cons, Option.some.injEq] at hc; rw [← hc]; exact hdrPh_seps.2.2.2.1))
+      (Or.inl fun c hc => by simp only [List.mem_singleton] at hc; rw [hc]; exact hdrPh_seps.2.2.2.1)
+
+theorem noHdr_lines : ∀ (doc : Doc), (∀ e ∈ doc, keyOK e.1 = true ∧ isInfix C12.hdrPh e.2.text = false) →
+    isInfix C12.hdrPh (doc.flatMap fun e => lineOf e ++ ['\n']) = false
+  | [], _ => by
+    obtain ⟨x, _, hx, _⟩ : ∃ x y, C12.hdrPh = 'B' :: x ∧ C12.hdrPh = y ++ ['0'] := C12.hdrPh_shape
+    rw [hx]; exact C01.not_infix_of_head (by simp)
+  | e :: es, h => by
+    obtain ⟨hk, hv⟩ := h e (by simp)
+    have ih := noHdr_lines es (fun e' he' => h e' (by simp [he']))
+    have hkey : isInfix C12.hdrPh e.1 = false :=
+      C12.noHdrPh_of_noComment (C02.Main.srcWord_iff.mp (keyOK_iff.mp hk).1).2.1
+    have e0 : ((e :: es).flatMap fun e => lineOf e ++ ['\n']) =
+        e.1 ++ (pad e.1 ++ (e.2.text ++ ([';'] ++ (['\n'] ++ es.flatMap fun e => lineOf e ++ ['\n'])))) := by
+      simp [lineOf]
+    rw [e0]
+    have hs := hdrPh_seps
+    have one : ∀ {c : Char}, c ∉ C12.hdrPh → ∀ x ∈ [c], x ∉ C12.hdrPh := fun hc x hx => by
+      simp only [List.mem_singleton] at hx; rw [hx]; exact hc
+    have h1 := noInfix_app (noHdr_single hs.2.2.1) ih (Or.inl (one hs.2.2.1))
+    have h2 := noInfix_app (noHdr_single hs.2.1) h1 (Or.inl (one hs.2.1))
+    have h3 := noInfix_app hv h2 (Or.inr fun c hc => by
+      simp only [List.singleton_append, List.head?_cons, Option.some.injEq] at hc; rw [← hc]; exact hs.2.1)
+    have h4 : isInfix C12.hdrPh (pad e.1 ++
+        (e.2.text ++ ([';'] ++ (['\n'] ++ es.flatMap fun e => lineOf e ++ ['\n'])))) = false :=
+      noInfix_app (noHdr_spaces _) h3 (Or.inl fun c hc => by
+        simp only [pad, spaces, List.mem_replicate] at hc; rw [hc.2]; exact hs.1)
+    exact noInfix_app hkey h4 (Or.inr fun c hc => by
+      have hp := (pad_ok e.1).2
+      cases hpad : pad e.1 with
+      | nil => exact absurd hpad hp
+      | cons c0 r =>
+        rw [hpad] at hc
+        simp only [List.cons_append, List.head?_cons, Option.some.injEq] at hc
+        have : c0 ∈ pad e.1 := by rw [hpad]; simp
+        simp only [pad, spaces, List.mem_replicate] at this
+        rw [← hc, this.2]; exact hs.1)
+
+/-! ### 13. one cycle from either state; all cycles -/
+
+/-- the hypotheses of the unresolved case: a well-formed flat document (as in `C05_read_layout`) all of whose references
+    are dangling; it stays well formed in the writer's spelling; the literals are values of the writer's domain -/
+structure SrcOKU (doc : Doc) (lay : Lay) (tail : Str) (p : Comps) : Prop where
+  wf : DocWF doc = true
+  wf' : DocWF (respell doc) = true
+  lay : LayOK lay doc.length = true
+  tail : tail.all isWs = true
+  len : doc.length ≤ Gen.counterLimit + 1
+  dang : docDangling doc = true
+  lits : litsInDom doc = true
+  hj : isJsonPath p = false
+  hx : isXmlPath p = false
+  hr : resolveSpelled p = p
+
+/-- the bytes every cycle writes -/
+def writtenText (doc : Doc) : Str :=
+  nativeHeader ++ renderG (respell doc) (wLay (respell doc)) (wTail (respell doc))
+
+section unresolved
+variable {doc : Doc} {lay : Lay} {tail : Str} {p : Comps} (H : SrcOKU doc lay tail p)
+include H
+
+omit H in
+theorem respell_len : (respell doc).length = doc.length := by simp [respell]
+
+theorem noHdr_written : isInfix C12.hdrPh (fmtEntries .native 0 (meanD doc)) = false := by
+  rw [fmtEntries_meanD doc (docWF_iff.mp H.wf).1]
+  refine noHdr_lines _ (fun e he => ?_)
+  obtain ⟨hk, hv⟩ := (docWF_iff.mp H.wf').1 e he
+  refine ⟨hk, noHdr_text hv (fun t ht => ?_)⟩
+  have hd : docDangling (respell doc) = true := by rw [respell_dangling]; exact H.dang
+  have := List.all_eq_true.mp hd e he
+  simp only [ht, textOK, Bool.and_eq_true, Bool.not_eq_true'] at this
+  exact this.1.2
+
+/-- the writer on the SDict of the first read and on the SDict of every re-read: the same bytes -/
+theorem write_unres {sd : SD} (h : sd = { data := meanD doc } ∨ sd = C12.hdrSD (meanD doc)) :
+    fmtSD .native sd = some (writtenText doc) := by
+  have h0 := fmtSD_meanD (docWF_iff.mp H.wf).1 (docWF_iff.mp H.wf').1
+  rcases h with rfl | rfl
+  · exact h0
+  · obtain ⟨h1, h2⟩ := C12.write_header_gen (meanD doc) (meanD_noPhKeys fun e he => ((docWF_iff.mp H.wf).1 e he).1)
+      (noHdr_written H)
+    exact (h1.trans h2.symm).trans h0
+
+omit H in
+theorem fmtPlain_nil : fmtPlain .native [] = [] := by
+  have h1 := fmtSD_meanD (doc := []) (fun e he => by cases he) (fun e he => by cases he)
+  rw [show meanD [] = [] from rfl, C12.fmtSD_text] at h1
+  have := List.append_cancel_left (Option.some.inj h1)
+  exact this
+
+/-- reading the written bytes, counter valid afterwards -/
+theorem read_unres (ev : Str → EvalResult) {q : Comps} (Q : C16.PathOK q) {c : Counter}
+    (hc : C13.ValidCounter Gen.counterLimit c) :
+    ∃ c', C13.ValidCounter Gen.counterLimit c' ∧
+      readFile ev [(q, .native (writtenText doc))] {} c q = .ok (.ok (C12.hdrSD (meanD doc)) c') := by
+  by_cases hne : doc = []
+  · subst hne
+    have G : C16.Good [] := ⟨by decide, rfl, (fun e he => by cases he), (by simp [srcOfEs, C02.countQuotedEs])⟩
+    obtain ⟨c', hv, hr⟩ := C01.readFile_dumped (c := c) ev q G.dom G.norm G.doc G.cnt hc Q.hj Q.hx Q.hr
+    refine ⟨c', hv, ?_⟩
+    rw [fmtPlain_nil] at hr
+    exact hr
+  · have hne' : respell doc ≠ [] := fun h => hne (by simpa [respell] using h)
+    have hn : countIds (respell doc) ≤ Gen.counterLimit + 1 :=
+      Nat.le_trans (countIds_le _) (by rw [respell_len]; exact H.len)
+    have hr := readFile_hdr_dangling ev q c H.wf' hne' (wLay_ok (respell doc)) (wTail_ws (respell doc)) hc hn
+      (by rw [respell_dangling]; exact H.dang) Q.hj Q.hx Q.hr
+    rw [meanD_respell H.wf H.lits] at hr
+    refine ⟨_, ?_, hr⟩
+    rw [labelAll_counter]; exact C02.adv_valid _ hc
+
+/-- from either state every cycle writes `writtenText doc` and reads `hdrSD (meanD doc)` -/
+theorem sdCycles_unres (ev : Str → EvalResult) {q : Comps} (Q : C16.PathOK q) :
+    ∀ (n : Nat) (sd : SD) (c : Counter), (sd = { data := meanD doc } ∨ sd = C12.hdrSD (meanD doc)) →
+      C13.ValidCounter Gen.counterLimit c →
+      C03.sdCycles ev q n sd c = List.replicate n (writtenText doc, C12.hdrSD (meanD doc))
+  | 0, _, _, _, _ => rfl
+  | n + 1, sd, c, hsd, hc => by
+    obtain ⟨c', hv, e⟩ := read_unres H ev Q hc
+    have ih := sdCycles_unres ev Q n (C12.hdrSD (meanD doc)) c' (Or.inr rfl) hv
+    simp only [C03.sdCycles, write_unres H hsd, e, ih, List.replicate_succ]
+
+end unresolved
+
+
 theorem domStr_noDollar {s : Str} (h : isDomScalar .native (.str s) = true) : '$' ∉ s := by
   intro hm
   simp only [isDomScalar, isDomStr, Bool.and_eq_true, List.all_eq_true] at h
@@ -370,6 +1499,195 @@ theorem C03_expr_cycles_last {doc : Doc} {lay : Lay} {tail : Str} {p q : Comps} 
   · intro x hx y hy
     rw [(List.mem_replicate.mp hx).2, (List.mem_replicate.mp hy).2]
 
+/-! ### B. unresolved references (dangling, cyclic) -/
+
+/-- the tables of a first read of a flat document: only the data are not empty -/
+theorem read_tables {doc : Doc} {lay : Lay} {tail : Str} (ev : Str → EvalResult) (p : Comps) (c : Counter)
+    (h : DocWF doc = true) (hl : LayOK lay doc.length = true) (ht : tail.all isWs = true)
+    (hc : C13.ValidCounter Gen.counterLimit c) (hn : countIds doc ≤ Gen.counterLimit + 1)
+    (hj : isJsonPath p = false) (hx : isXmlPath p = false) (hres : resolveSpelled p = p) {sd₀ : SD} {c₁ : Counter}
+    (hread : readFile ev [(p, .native (renderG doc lay tail))] {} c p = .ok (.ok sd₀ c₁)) :
+    sd₀ = { data := sd₀.data } ∧ c₁ = (labelAll c doc).1.counter := by
+  rw [readFile_layout ev p c h hl ht hc hn hj hx hres] at hread
+  cases hev : evalExpressions ev (exprSD c doc) with
+  | error e => rw [hev] at hread; cases hread
+  | ok s' =>
+    rw [hev] at hread
+    simp only [Except.map, Except.ok.injEq, ReadOut.ok.injEq] at hread
+    obtain ⟨rfl, rfl⟩ := hread
+    exact ⟨evalExpressions_tables ev _ _ hev, rfl⟩
+
+/-- **C03 with unresolved references, full statement** (FALSE as it stands: `C03_expr_unresolved_statement_false`).
+    For every well-formed flat document (domain of `parse_flat_exprs_layout`; references may be dangling or cyclic,
+    expressions partly resolvable) whose literals are values of the writer's domain: whenever the first read succeeds,
+    writing its result with the real writer and reading the written file gives, up to the header placeholder entry, the
+    data of the first read. -/
+def C03_expr_unresolved_statement : Prop :=
+  ∀ (doc : Doc) (lay : Lay) (tail : Str) (p q : Comps) (c c₁ : Counter) (sd₀ : SD),
+    DocWF doc = true → LayOK lay doc.length = true → tail.all isWs = true →
+    countIds doc ≤ Gen.counterLimit + 1 → litsInDom doc = true → C16.PathOK p → C16.PathOK q →
+    C13.ValidCounter Gen.counterLimit c →
+    readFile evalInt [(p, .native (renderG doc lay tail))] {} c p = .ok (.ok sd₀ c₁) →
+    ∃ t sd₁ c₂, fmtSD .native sd₀ = some t ∧ readFile evalInt [(q, .native t)] {} c₁ q = .ok (.ok sd₁ c₂) ∧
+      C01.dropPhEntries sd₁.data = sd₀.data
+
+/-! #### the refutation: an unresolved expression whose text, after the resolvable references were substituted, begins
+    with `;`.  Source (Python: the text of the file; `⎵²⁹` = 29 blanks, the writer's padding behind a one-letter key):
+
+        s ';';
+        a "$s b⎵²⁹$c; d⎵²⁹";
+        x "$y + 1";
+        b $c;
+        d "$z + 1";
+
+    `c`, `y`, `z` are not defined.  First read: `s = ';'`, `a = '; b⎵²⁹$c; d⎵²⁹'` (`$s` substituted, `$c` left),
+    `x = '$y + 1'`, `b = '$c'`, `d = '$z + 1'`.  The parsed file holds the line `a  "; b⎵²⁹$c; d⎵²⁹";` -- and the very
+    same characters `"; b⎵²⁹$c; d⎵²⁹"` stand between `x`'s closing quote and `d`'s opening quote (line ends count as
+    blanks).  `_extract_expressions` replaces every occurrence of a matched text (`str.replace`): the entries `x`, `b`,
+    `d` are swallowed, the second read returns `s` and `a` only. -/
+
+def exW : Doc := [("s".toList, .lit (.quoted '\'' ";".toList)),
+  ("a".toList, .expr ("$s b".toList ++ List.replicate 29 ' ' ++ "$c; d".toList ++ List.replicate 29 ' ')),
+  ("x".toList, .expr "$y + 1".toList), ("b".toList, .ref "c".toList), ("d".toList, .expr "$z + 1".toList)]
+
+/-- the data of the first read -/
+def exWD0 : Entries :=
+  [(.str "s".toList, .leaf (.str ";".toList)),
+   (.str "a".toList, .leaf (.str ("; b".toList ++ List.replicate 29 ' ' ++ "$c; d".toList ++ List.replicate 29 ' '))),
+   (.str "x".toList, .leaf (.str "$y + 1".toList)), (.str "b".toList, .leaf (.str "$c".toList)),
+   (.str "d".toList, .leaf (.str "$z + 1".toList))]
+
+/-- the data of the second read (without the header placeholder entry) -/
+def exWD1 : Entries :=
+  [(.str "s".toList, .leaf (.str ";".toList)),
+   (.str "a".toList, .leaf (.str ("; b".toList ++ List.replicate 29 ' ' ++ "$c; d".toList ++ List.replicate 29 ' ')))]
+
+/-- what the writer writes behind the header -/
+def exWText : Str :=
+  ("s                             ';';\n" ++
+   "a                             \"; b                             $c; d                             \";\n" ++
+   "x                             \"$y + 1\";\n" ++
+   "b                             $c;\n" ++
+   "d                             \"$z + 1\";\n").toList
+
+def exP : Comps := ["w".toList, "case".toList]
+def exQ : Comps := ["w".toList, "parsed.case".toList]
+
+theorem exW_wf : DocWF exW = true := by decide +kernel
+
+theorem exW_first : C05.readData (readFile evalInt [(exP, .native (render exW))] {} none exP) = some exWD0 := by
+  decide +kernel
+
+theorem exW_written : fmtPlain .native exWD0 = exWText := by
+  have hh : hoistPlaceholders exWD0 = exWD0 := by decide +kernel
+  rw [show fmtPlain .native exWD0 = removeTrailingSpaces (fmtEntries .native 0 (hoistPlaceholders exWD0)) from rfl, hh]
+  simp only [exWD0, fmtEntries, formatKey, formatScalar]
+  decide +kernel
+
+theorem exW_second :
+    (C05.readData (readFile evalInt [(exQ, .native (C12.nativeHeaderChars ++ exWText))] {} (some 4) exQ)).map
+      C01.dropPhEntries = some exWD1 := by
+  decide +kernel
+
+theorem C03_expr_unresolved_statement_false : ¬ C03_expr_unresolved_statement := by
+  intro S
+  have hcnt : countIds exW ≤ Gen.counterLimit + 1 := Nat.le_trans (countIds_le _) (by decide)
+  have h1 := exW_first
+  rw [render_eq] at h1
+  cases hr : readFile evalInt [(exP, .native (renderG exW (fixedLay exW) (fixedTail exW)))] {} none exP with
+  | error e => rw [hr] at h1; simp [C05.readData] at h1
+  | ok out =>
+    cases out with
+    | exit1 => rw [hr] at h1; simp [C05.readData] at h1
+    | ok sd₀ c₁ =>
+      rw [hr] at h1
+      simp only [C05.readData, Option.some.injEq] at h1
+      obtain ⟨htab, hc₁⟩ := read_tables evalInt exP none exW_wf (fixedLay_ok exW) (fixedTail_ws exW) (Or.inl rfl) hcnt
+        (by decide) (by decide) (by decide) hr
+      have hc4 : (labelAll none exW).1.counter = some 4 := by decide +kernel
+      obtain ⟨t, sd₁, c₂, hw, hr2, hd⟩ := S exW (fixedLay exW) (fixedTail exW) exP exQ none c₁ sd₀ exW_wf (fixedLay_ok exW)
+        (fixedTail_ws exW) hcnt (by decide +kernel) ⟨by decide, by decide, by decide⟩ ⟨by decide, by decide, by decide⟩
+        (Or.inl rfl) hr
+      rw [htab, h1, C12.fmtSD_text, exW_written, C12.nativeHeader_eq] at hw
+      have ht := Option.some.inj hw
+      have h2 := exW_second
+      rw [ht, ← hc4, ← hc₁, hr2] at h2
+      simp only [C05.readData, Option.map_some, Option.some.injEq] at h2
+      rw [hd, h1] at h2
+      exact absurd h2 (by decide)
+
+/-! #### what holds: documents all of whose references are dangling; results of a first read of that form -/
+
+theorem meanD_noPh {doc : Doc} (h : ∀ e ∈ doc, keyOK e.1 = true) : C07.NoPhEs (meanD doc) := by
+  rw [C07.noPhEs_iff]
+  intro e he
+  simp only [meanD, List.mem_map] at he
+  obtain ⟨a, ha, rfl⟩ := he
+  exact ⟨C02.Main.typedKey_noPh (keyOK_iff.mp (h a ha)).1 (key_facts (h a ha)).2.2, trivial⟩
+
+/-- **C03, unresolved references, one cycle -- proved for documents all of whose references are dangling**
+    (`SrcOKU`: `d $nope;`, `e "$p + 1";`, `f "$p";` next to literals; for every evaluator).
+      1. the first read returns `meanD doc`: every unresolved entry keeps its text (`$nope`, `$p + 1`, `$p`), the
+         literals their values;
+      2. the writer writes the header and the document in its own spelling (`respell`: a text that is exactly one
+         reference bare, any other text with `$` in double quotes) and layout;
+      3. reading that file gives the same data with the header placeholder entry in front. -/
+theorem C03_expr_unresolved_partial {doc : Doc} {lay : Lay} {tail : Str} {p q : Comps} (H : SrcOKU doc lay tail p)
+    (Q : C16.PathOK q) (ev : Str → EvalResult) {c : Counter} (hc : C13.ValidCounter Gen.counterLimit c) :
+    ∃ c₁ c₂,
+      readFile ev [(p, .native (renderG doc lay tail))] {} c p = .ok (.ok { data := meanD doc } c₁) ∧
+      fmtSD .native { data := meanD doc } = some (writtenText doc) ∧
+      readFile ev [(q, .native (writtenText doc))] {} c₁ q = .ok (.ok (C12.hdrSD (meanD doc)) c₂) ∧
+      C01.dropPhEntries (C12.hdrSD (meanD doc)).data = meanD doc := by
+  have hn : countIds doc ≤ Gen.counterLimit + 1 := Nat.le_trans (countIds_le _) H.len
+  have h1 := readFile_dangling (lay := lay) (tail := tail) ev p c H.wf H.lay H.tail hc hn H.dang H.hj H.hx H.hr
+  have hv : C13.ValidCounter Gen.counterLimit (labelAll c doc).1.counter := counter_valid hc
+  obtain ⟨c₂, _, h2⟩ := read_unres H ev Q hv
+  exact ⟨_, c₂, h1, write_unres H (Or.inl rfl), h2,
+    C01.dropPh_hdr (meanD_noPh fun e he => ((docWF_iff.mp H.wf).1 e he).1)⟩
+
+/-- **… every number of cycles**: after the first read, `n` write–read cycles with the real writer all write the same
+    bytes and all read the data of the first read (with the header placeholder entry) -/
+theorem C03_expr_unresolved_cycles_partial {doc : Doc} {lay : Lay} {tail : Str} {p q : Comps} (H : SrcOKU doc lay tail p)
+    (Q : C16.PathOK q) (ev : Str → EvalResult) {c : Counter} (hc : C13.ValidCounter Gen.counterLimit c) (n : Nat) :
+    ∃ c₁,
+      readFile ev [(p, .native (renderG doc lay tail))] {} c p = .ok (.ok { data := meanD doc } c₁) ∧
+      C03.sdCycles ev q n { data := meanD doc } c₁ = List.replicate n (writtenText doc, C12.hdrSD (meanD doc)) ∧
+      C01.dropPhEntries (C12.hdrSD (meanD doc)).data = meanD doc := by
+  have hn : countIds doc ≤ Gen.counterLimit + 1 := Nat.le_trans (countIds_le _) H.len
+  have h1 := readFile_dangling (lay := lay) (tail := tail) ev p c H.wf H.lay H.tail hc hn H.dang H.hj H.hx H.hr
+  exact ⟨_, h1, sdCycles_unres H ev Q n _ _ (Or.inl rfl) (counter_valid hc),
+    C01.dropPh_hdr (meanD_noPh fun e he => ((docWF_iff.mp H.wf).1 e he).1)⟩
+
+/-- **mixed documents, given the first read**: whatever source the SDict `{ data := meanD r }` was read from -- `r` the
+    *residual document*: the evaluated entries as literals, the unresolved ones as the texts they kept, all references
+    of `r` dangling --, every cycle writes the same bytes and reads that data again.  (For `a 2; b $a; c "$a * $b + 1";
+    d $nope; e "$p + 1";` the residual document is `a 2; b 2; c 5; d $nope; e "$p + 1";`, see `exM_cycles`.) -/
+theorem C03_expr_residual_cycles {r : Doc} {q : Comps} (hwf : DocWF r = true) (hwf' : DocWF (respell r) = true)
+    (hlen : r.length ≤ Gen.counterLimit + 1) (hd : docDangling r = true) (hl : litsInDom r = true)
+    (Q : C16.PathOK q) (ev : Str → EvalResult) {c : Counter} (hc : C13.ValidCounter Gen.counterLimit c) (n : Nat) :
+    C03.sdCycles ev q n { data := meanD r } c = List.replicate n (writtenText r, C12.hdrSD (meanD r)) ∧
+    C01.dropPhEntries (C12.hdrSD (meanD r)).data = meanD r := by
+  have H : SrcOKU r (wLay r) (wTail r) q := ⟨hwf, hwf', wLay_ok r, wTail_ws r, hlen, hd, hl, Q.hj, Q.hx, Q.hr⟩
+  exact ⟨sdCycles_unres H ev Q n _ _ (Or.inl rfl) hc, C01.dropPh_hdr (meanD_noPh fun e he => ((docWF_iff.mp hwf).1 e he).1)⟩
+
+/-- **the corrected full statement** (kept visible; NOT proved in general).  What is missing for a proof:
+    (1) `_eval_expressions` on a reference graph with dangling or cyclic parts -- `C05_complete_acyclic'` asks for
+    references that name entries and an acyclic graph -- i.e. that the first read of a mixed source returns `meanD r`
+    for a residual document `r`; (2) the re-read of cyclic references (`a $b; b $a;`), where the references do name
+    entries.  With the residual document given, `C03_expr_residual_cycles` is the proof; for sources all of whose
+    references are dangling, `C03_expr_unresolved_cycles_partial`.  The extra hypothesis compared with
+    `C03_expr_unresolved_statement`: the first read's result, as the writer spells it (`respell r`), is again a
+    well-formed document -- in particular no unresolved text begins with `;`, and the texts are pairwise distinct. -/
+def C03_expr_unresolved_corrected : Prop :=
+  ∀ (doc : Doc) (lay : Lay) (tail : Str) (p q : Comps) (c c₁ : Counter) (sd₀ : SD) (r : Doc),
+    DocWF doc = true → LayOK lay doc.length = true → tail.all isWs = true →
+    countIds doc ≤ Gen.counterLimit + 1 → litsInDom doc = true → C16.PathOK p → C16.PathOK q →
+    C13.ValidCounter Gen.counterLimit c →
+    readFile evalInt [(p, .native (renderG doc lay tail))] {} c p = .ok (.ok sd₀ c₁) →
+    sd₀.data = meanD r → DocWF r = true → DocWF (respell r) = true → litsInDom r = true →
+    ∀ n, ∃ t sd₁, C03.sdCycles evalInt q n sd₀ c₁ = List.replicate n (t, sd₁) ∧ C01.dropPhEntries sd₁.data = sd₀.data
+
 /-! ## non-vacuity -/
 
 /-- `a 2; b $a; c "$a * $b + 1"; s 'x y';` -/
@@ -379,9 +1697,6 @@ def exR : Doc :=
 
 /-- a loose layout: tabs, blank lines, CR LF, two entries on one line -/
 def exRLay : Lay := [(['\n', ' '], ['\t'], [' ']), ([' '], [' ', ' '], []), (['\n'], ['\n', ' '], ['\r', '\n']), (['\n', '\n'], [' '], [])]
-
-def exP : Comps := ["w".toList, "case".toList]
-def exQ : Comps := ["w".toList, "parsed.case".toList]
 
 theorem exR_text : renderG exR exRLay "  \n".toList =
     "\n a\t2 ; b  $a;\nc\n \"$a * $b + 1\"\r\n;\n\ns 'x y';  \n".toList := by decide +kernel
@@ -426,5 +1741,97 @@ theorem exR_cycles : ∃ c₁,
   rw [h0, exR_evalData] at h1 h2 hread
   rw [exR_text] at hread
   exact ⟨c₁, hread, h1, h2⟩
+
+/-! #### unresolved references -/
+
+/-- `d $nope; e "$p + 1"; s "x y"; n 7; f "$p";` -- every reference dangling; `s` in the "wrong" quotes, `f` a quoted
+    single reference: the writer respells both -/
+def exU : Doc :=
+  [("d".toList, .ref "nope".toList), ("e".toList, .expr "$p + 1".toList), ("s".toList, .lit (.quoted '"' "x y".toList)),
+   ("n".toList, .lit (.bare "7".toList)), ("f".toList, .expr "$p".toList)]
+
+def exULay : Lay :=
+  [(['\n', ' '], ['\t'], [' ']), ([' '], [' ', ' '], []), (['\n'], ['\n', ' '], ['\r', '\n']), (['\n', '\n'], [' '], []),
+   ([], [' '], [])]
+
+theorem exU_text : renderG exU exULay "  \n".toList =
+    "\n d\t$nope ; e  \"$p + 1\";\ns\n \"x y\"\r\n;\n\nn 7;f \"$p\";  \n".toList := by decide +kernel
+
+theorem exU_ok : SrcOKU exU exULay "  \n".toList exP :=
+  ⟨by decide +kernel, by decide +kernel, by decide, by decide, by decide, by decide +kernel, by decide +kernel,
+   by decide, by decide, by decide⟩
+
+def exUData : Entries :=
+  [(.str "d".toList, .leaf (.str "$nope".toList)), (.str "e".toList, .leaf (.str "$p + 1".toList)),
+   (.str "s".toList, .leaf (.str "x y".toList)), (.str "n".toList, .leaf (.int 7)),
+   (.str "f".toList, .leaf (.str "$p".toList))]
+
+theorem exU_mean : meanD exU = exUData := by decide +kernel
+
+theorem exU_written : writtenText exU = nativeHeader ++
+    ("d                             $nope;\n" ++
+     "e                             \"$p + 1\";\n" ++
+     "s                             'x y';\n" ++
+     "n                             7;\n" ++
+     "f                             $p;\n").toList := by
+  unfold writtenText
+  congr 1
+  decide +kernel
+
+/-- the theorems on the example: the unresolved entries keep their texts, three cycles write the same bytes -/
+theorem exU_cycles (ev : Str → EvalResult) : ∃ c₁,
+    readFile ev [(exP, .native "\n d\t$nope ; e  \"$p + 1\";\ns\n \"x y\"\r\n;\n\nn 7;f \"$p\";  \n".toList)] {} none exP =
+      .ok (.ok { data := exUData } c₁) ∧
+    C03.sdCycles ev exQ 3 { data := exUData } c₁ = List.replicate 3 (writtenText exU, C12.hdrSD exUData) ∧
+    C01.dropPhEntries (C12.hdrSD exUData).data = exUData := by
+  obtain ⟨c₁, h1, h2, h3⟩ := C03_expr_unresolved_cycles_partial exU_ok exQ_ok ev (c := none) (Or.inl rfl) 3
+  rw [exU_text, exU_mean] at h1
+  rw [exU_mean] at h2 h3
+  exact ⟨c₁, h1, h2, h3⟩
+
+/-- the mixed example of the task: `a 2; b $a; c "$a * $b + 1"; d $nope; e "$p + 1";` -/
+def exM : Doc :=
+  [("a".toList, .lit (.bare "2".toList)), ("b".toList, .ref "a".toList), ("c".toList, .expr "$a * $b + 1".toList),
+   ("d".toList, .ref "nope".toList), ("e".toList, .expr "$p + 1".toList)]
+
+/-- its residual document: `a 2; b 2; c 5; d $nope; e "$p + 1";` -/
+def exMr : Doc :=
+  [("a".toList, .lit (.bare "2".toList)), ("b".toList, .lit (.bare "2".toList)), ("c".toList, .lit (.bare "5".toList)),
+   ("d".toList, .ref "nope".toList), ("e".toList, .expr "$p + 1".toList)]
+
+theorem exM_text : render exM = "a 2;\nb $a;\nc \"$a * $b + 1\";\nd $nope;\ne \"$p + 1\";\n".toList := by decide +kernel
+
+theorem exM_first : C05.readData (readFile evalInt [(exP, .native (render exM))] {} none exP) = some (meanD exMr) := by
+  decide +kernel
+
+/-- the first read evaluates `b`, `c` and keeps `$nope`, `$p + 1` as text; every cycle then writes the same bytes and
+    reads that data again -/
+theorem exM_cycles (n : Nat) : ∃ sd₀ c₁,
+    readFile evalInt [(exP, .native "a 2;\nb $a;\nc \"$a * $b + 1\";\nd $nope;\ne \"$p + 1\";\n".toList)] {} none exP =
+      .ok (.ok sd₀ c₁) ∧
+    sd₀.data = [(.str "a".toList, .leaf (.int 2)), (.str "b".toList, .leaf (.int 2)), (.str "c".toList, .leaf (.int 5)),
+      (.str "d".toList, .leaf (.str "$nope".toList)), (.str "e".toList, .leaf (.str "$p + 1".toList))] ∧
+    C03.sdCycles evalInt exQ n sd₀ c₁ = List.replicate n (writtenText exMr, C12.hdrSD sd₀.data) ∧
+    C01.dropPhEntries (C12.hdrSD sd₀.data).data = sd₀.data := by
+  have hwf : DocWF exM = true := by decide +kernel
+  have h1 := exM_first
+  rw [render_eq] at h1
+  cases hr : readFile evalInt [(exP, .native (renderG exM (fixedLay exM) (fixedTail exM)))] {} none exP with
+  | error e => rw [hr] at h1; simp [C05.readData] at h1
+  | ok out =>
+    cases out with
+    | exit1 => rw [hr] at h1; simp [C05.readData] at h1
+    | ok sd₀ c₁ =>
+      rw [hr] at h1
+      simp only [C05.readData, Option.some.injEq] at h1
+      obtain ⟨htab, hc₁⟩ := read_tables evalInt exP none hwf (fixedLay_ok exM) (fixedTail_ws exM) (Or.inl rfl)
+        (Nat.le_trans (countIds_le _) (by decide)) (by decide) (by decide) (by decide) hr
+      have hv : C13.ValidCounter Gen.counterLimit c₁ := by rw [hc₁]; exact counter_valid (Or.inl rfl)
+      obtain ⟨h2, h3⟩ := C03_expr_residual_cycles (r := exMr) (by decide +kernel) (by decide +kernel) (by decide)
+        (by decide +kernel) (by decide +kernel) exQ_ok evalInt hv n
+      rw [← render_eq, exM_text] at hr
+      refine ⟨sd₀, c₁, hr, by rw [h1]; decide +kernel, ?_, ?_⟩
+      · rw [htab, h1]; exact h2
+      · rw [h1]; exact h3
 
 end DictIO.C03expr
